@@ -286,6 +286,42 @@ CHECK_DEADLOCK FALSE
 """
 
 
+def apalache_inductive(run):
+    """unbounded safety of the allocator DESIGN (interval form of the contract): Init => IndInv, IndInv /\\ Next => IndInv'
+    discharged by Apalache; a Free that does not coalesce must be rejected (vacuity self-test)"""
+    import shutil, subprocess
+    if not shutil.which("apalache-mc"):
+        run.notes["apalache"] = "not installed: skipped"
+        return
+    wd = C.scratch("apa")
+    src = open(os.path.join(C.SPEC, "XoAllocInd.tla")).read()
+    open(os.path.join(wd, "XoAllocInd.tla"), "w").write(src)
+    broken = src.replace("MODULE XoAllocInd", "MODULE XoAllocIndBroken").replace(
+        "IN free' = {c \\in free : c.e # r.s /\\ c.s # r.e} \\cup {[s |-> ns, e |-> ne]}",
+        "IN free' = free \\cup {[s |-> r.s, e |-> r.e]}")
+    if broken.count("free' = free \\cup {[s |-> r.s, e |-> r.e]}") != 1:
+        raise C.MachineryError("cannot derive the non-coalescing variant of XoAllocInd")
+    open(os.path.join(wd, "XoAllocIndBroken.tla"), "w").write(broken)
+
+    def apa(mod, init, length):
+        p = subprocess.run(["apalache-mc", "check", f"--init={init}", "--inv=IndInv", f"--length={length}", f"--out-dir={wd}/out_{mod}_{init}", mod + ".tla"],
+                           cwd=wd, capture_output=True, text=True, timeout=900)
+        return "EXITCODE: OK" in p.stdout, p.stdout[-600:]
+
+    with ThreadPoolExecutor(max_workers=3) as ex:
+        f1 = ex.submit(apa, "XoAllocInd", "Init", 0)
+        f2 = ex.submit(apa, "XoAllocInd", "IndInit", 1)
+        f3 = ex.submit(apa, "XoAllocIndBroken", "IndInit", 1)
+        base, step, mutant = f1.result(), f2.result(), f3.result()
+    shutil.rmtree(wd, ignore_errors=True)
+    if not base[0] or not step[0]:
+        raise C.MachineryError("Apalache does not discharge the inductive invariant of the allocator contract:\n" + (base[1] if not base[0] else step[1]))
+    if mutant[0]:
+        raise C.MachineryError("vacuity self-test failed: Apalache accepts a Free that does not coalesce")
+    run.notes["apalache"] = dict(obligations=2, discharged=2, mutant_rejected=True,
+                                 claim="IndInit => IndInv and IndInv /\\ Next => IndInv' for unbounded capacity/sizes, alignments {1,2,4,8}, <= 4 free and <= 4 live intervals")
+
+
 def model_check(run, tier):
     jobs = []
     for c, tag in MC[tier]["impl"]:
@@ -324,7 +360,10 @@ def check(pid, argv=None):
         traces = [rp]
     else:
         t1 = time.time()
-        model_check(run, tier)
+        with ThreadPoolExecutor(max_workers=2) as ex:
+            fa = ex.submit(apalache_inductive, run)
+            model_check(run, tier)
+            fa.result()
         run.notes["t_model_check"] = round(time.time() - t1, 1)
         traces = []
         gstats = {}
